@@ -10,6 +10,7 @@ syntax raises AnalysisError (fail closed).
 from __future__ import annotations
 
 import ast
+import re
 from fractions import Fraction
 
 from .lnodes_model import LNODES, LClass
@@ -236,8 +237,41 @@ class Interp:
                                 self.modconsts[ck] = self.expr(st.value, {})  # e.g. a table mentioning type names (stubs given by the rule)
                             except AnalysisError:
                                 return _MISSING
+                        # module initialisation continues after the assignment: later top-level statements that fill the same container
+                        # (`for k in (...): table[k] = f`, `table[k] = v`, `table.update(...)`) are interpreted in source order
+                        later = m.tree.body[m.tree.body.index(st) + 1:]
+                        mut = [s_ for s_ in later if _mutates_name(s_, name)]
+                        if mut and isinstance(self.modconsts[ck], (dict, list, set)):
+                            env_ = {name: self.modconsts[ck]}
+                            try:
+                                for s_ in mut:
+                                    self.stmt(s_, env_)
+                            except (AnalysisError, Raised):
+                                del self.modconsts[ck]
+                                return _MISSING
                     return self.modconsts[ck]  # one object per interpreter: module-level state persists across calls
         return _MISSING
+
+    def module_value(self, modname: str, name: str):
+        """Value of a module-level container of a repository module after module initialisation (see resolve_constant)."""
+        self.ctx.append(self.repo.mod(modname))
+        try:
+            v = self.resolve_constant(name)
+        finally:
+            self.ctx.pop()
+        if v is _MISSING:
+            raise AnalysisError(f"absint: module-level `{modname}.{name}` cannot be evaluated")
+        return v
+
+    def install_ufl_classes(self, *modnames):
+        """Every `ufl.<...>.<Class>` the given modules mention stands for itself: a class value compared by name."""
+        for mn in modnames:
+            for n in ast.walk(self.repo.mod(mn).tree):
+                if isinstance(n, ast.Attribute):
+                    d = dotted(n)
+                    if d and d.startswith("ufl.") and d.split(".")[-1][:1].isupper() and d not in self.overrides:
+                        self.overrides[d] = _Cls(d.split(".")[-1])
+        return self
 
     def resolve_module(self, name: str):
         m = self.cur()
@@ -561,8 +595,22 @@ class Interp:
                 raise AnalysisError("absint: attribute store on non-node")
         elif isinstance(t, (ast.Tuple, ast.List)):
             vals = list(self.iterate(v))
+            stars = [i_ for i_, a in enumerate(t.elts) if isinstance(a, ast.Starred)]
+            if len(stars) > 1:
+                raise AnalysisError("absint: two starred targets")
+            if stars:
+                k_ = stars[0]
+                after = len(t.elts) - k_ - 1
+                if len(vals) < len(t.elts) - 1:
+                    raise Raised(f"ValueError: not enough values to unpack (expected at least {len(t.elts) - 1}, got {len(vals)})")
+                for a, b in zip(t.elts[:k_], vals[:k_]):
+                    self.store(a, b, env)
+                self.store(t.elts[k_].value, list(vals[k_:len(vals) - after]), env)
+                for a, b in zip(t.elts[k_ + 1:], vals[len(vals) - after:]):
+                    self.store(a, b, env)
+                return
             if len(vals) != len(t.elts):
-                raise Raised("unpack")
+                raise Raised(f"ValueError: unpack {len(vals)} values into {len(t.elts)} targets")
             for a, b in zip(t.elts, vals):
                 self.store(a, b, env)
         elif isinstance(t, ast.Subscript):
@@ -587,6 +635,8 @@ class Interp:
             return True  # functions, bound methods and classes are truthy
         if isinstance(v, (Fraction, complex)):
             return bool(v)
+        if isinstance(v, re.Match):
+            return True  # a match object (of a regex call the rule let through to `re`) is truthy; no match is None
         if isinstance(v, PyNative):
             try:
                 return bool(v)
@@ -597,6 +647,8 @@ class Interp:
     def iterate(self, it):
         if isinstance(it, (list, tuple, range)):
             return list(it)
+        if isinstance(it, Node) and "__fields__" in it.f:
+            return [it.f[k_] for k_ in it.f["__fields__"]]  # a NamedTuple record is a tuple of its fields
         if isinstance(it, dict):
             return list(it.keys())
         if isinstance(it, PyNative):
@@ -906,6 +958,8 @@ class Interp:
                 return all(v == IMAG for p_ in (base.num, base.den) for mono in p_ for v, _k in mono)
             if isinstance(base, _Cls) and e.attr == "__name__":
                 return base.name
+            if e.attr in ("__name__", "__qualname__") and hasattr(base, "node") and hasattr(base, "module") and isinstance(base.node, (ast.FunctionDef, ast.AsyncFunctionDef)):
+                return base.node.name if e.attr == "__name__" else base.qualname
             if isinstance(base, _Cls) and e.attr == "__bases__":
                 bs = (self.classes[base.name].bases[:1] if base.name in self.classes else []) or list(self.extra_bases.get(base.name, ()))[:1]
                 return tuple(_Cls(b) for b in bs)
@@ -933,6 +987,21 @@ class Interp:
                 return _PyCall(getattr(base, e.attr))
             if isinstance(base, dict) and e.attr in ("items", "keys", "values", "get", "setdefault"):
                 return _DictMeth(base, e.attr)
+            if isinstance(base, str) and e.attr in ("name", "value") and re.fullmatch(r"[A-Z][A-Za-z0-9_]*\.[A-Za-z_]\w*", base):
+                # a member of a repository Enum (members are modelled as "Class.member")
+                cname, member = base.split(".")
+                if e.attr == "name":
+                    return member
+                for mod_ in self.repo.modules.values():
+                    c_ = mod_.classes.get(cname)
+                    if c_ is not None and any((dotted(b) or "").split(".")[-1] in ("Enum", "IntEnum") for b in c_.bases):
+                        for st in c_.body:
+                            if isinstance(st, ast.Assign) and any(isinstance(t, ast.Name) and t.id == member for t in st.targets):
+                                try:
+                                    return const_value(st.value)
+                                except ValueError:
+                                    raise AnalysisError(f"absint: value of enum member {base} is not a literal")
+                raise AnalysisError(f"absint: enum member {base} not found")
             if isinstance(base, str) and e.attr in ("replace", "isalnum", "startswith", "endswith", "format", "format_map", "join", "lower", "upper", "strip", "isidentifier", "split", "encode"):
                 return _PyCall(getattr(base, e.attr))
             raise AnalysisError(f"absint: attribute `{ast.unparse(e)}` not modelled")
@@ -986,6 +1055,11 @@ class Interp:
                 else:
                     out.append(self.expr(x, env))
             return out if isinstance(e, ast.List) else tuple(out)
+        if isinstance(e, ast.Set):
+            try:
+                return {self.expr(x, env) for x in e.elts}
+            except TypeError:
+                raise AnalysisError("absint: set display of unhashable values")
         if isinstance(e, ast.Subscript):
             base = self.expr(e.value, env)
             if isinstance(e.slice, ast.Slice):
@@ -994,12 +1068,19 @@ class Interp:
                 st = self.expr(e.slice.step, env) if e.slice.step else None
                 return base[lo:hi:st]
             idx = self.expr(e.slice, env)
+            if isinstance(base, Node) and "__fields__" in base.f and isinstance(idx, int) and not isinstance(idx, bool):
+                try:
+                    return base.f[base.f["__fields__"][idx]]
+                except IndexError:
+                    raise Raised("IndexError: tuple index out of range")
             if isinstance(base, Node):
                 return self.call_method(base, "__getitem__", idx)
             try:
                 return base[idx]
-            except (IndexError, KeyError):
-                raise Raised("IndexError")
+            except KeyError:
+                raise Raised(f"KeyError: {idx!r}"[:80])
+            except IndexError:
+                raise Raised("IndexError: index out of range")
             except TypeError as ex:
                 raise AnalysisError(f"absint: subscript failed: {ex}")
         if isinstance(e, ast.DictComp):
@@ -1079,6 +1160,8 @@ class Interp:
                 return bool({ast.Lt: _op.lt, ast.LtE: _op.le, ast.Gt: _op.gt, ast.GtE: _op.ge}[type(op)](a, b))
             except TypeError as ex:
                 raise Raised(f"TypeError: {ex}")
+        if isinstance(a, (set, frozenset)) and isinstance(b, (set, frozenset)):
+            return {ast.Lt: a < b, ast.LtE: a <= b, ast.Gt: a > b, ast.GtE: a >= b}[type(op)]  # subset / superset tests
         raise AnalysisError("absint: unsupported comparison")
 
     def equal(self, a, b):
@@ -1142,9 +1225,14 @@ class Interp:
             return [(i, x) for i, x in enumerate(self.iterate(vals[0]))]
         if fn == "reversed":
             return list(reversed(self.iterate(vals[0])))
-        if fn == "itertools.chain":
+        if fn in ("itertools.chain", "chain"):
             out_ = []
             for v_ in vals:
+                out_.extend(self.iterate(v_))
+            return out_
+        if fn in ("itertools.chain.from_iterable", "chain.from_iterable") and len(vals) == 1:
+            out_ = []
+            for v_ in self.iterate(vals[0]):
                 out_.extend(self.iterate(v_))
             return out_
         if fn in ("list", "tuple"):
@@ -1261,6 +1349,14 @@ class Interp:
             return (max if fn == "max" else min)(seq)
         if fn in ("np.asarray", "numpy.asarray", "np.array"):
             return vals[0]
+        if fn in ("Counter", "collections.Counter") and len(vals) <= 1 and not kw:
+            # occurrences per element in first-seen order (a dict; equality of elements as the interpreter sees it)
+            cnt: dict = {}
+            for x_ in (self.iterate(vals[0]) if vals else []):
+                if isinstance(x_, (Node, list, dict, set)):
+                    raise AnalysisError("absint: Counter of unhashable sample values")
+                cnt[x_] = cnt.get(x_, 0) + 1
+            return cnt
         if fn in ("defaultdict", "collections.defaultdict"):
             import collections
 
@@ -1525,6 +1621,27 @@ class _Cls:
 
     def __repr__(self):
         return f"<class {self.name}>"
+
+
+def _mutates_name(st, name) -> bool:
+    """Does this top-level statement store into / grow the container bound to the module-level `name`?"""
+    if isinstance(st, (ast.FunctionDef, ast.AsyncFunctionDef, ast.ClassDef)):
+        return False
+    for n in ast.walk(st):
+        if isinstance(n, (ast.Assign, ast.AugAssign, ast.AnnAssign)):
+            tg = n.targets if isinstance(n, ast.Assign) else [n.target]
+            for t in tg:
+                b = t
+                while isinstance(b, ast.Subscript):
+                    b = b.value
+                if b is not t and isinstance(b, ast.Name) and b.id == name:
+                    return True
+                if isinstance(n, ast.AugAssign) and isinstance(t, ast.Name) and t.id == name:
+                    return True
+        if isinstance(n, ast.Call) and isinstance(n.func, ast.Attribute) and isinstance(n.func.value, ast.Name) and n.func.value.id == name \
+                and n.func.attr in ("update", "append", "extend", "setdefault", "add", "insert"):
+            return True
+    return False
 
 
 _LOCALS_CACHE: dict = {}
